@@ -262,6 +262,8 @@ class Stm:
 
 
 # content streams placed before the one that holds the inline image (a page's /Contents may be an array): (streams, number of tokens they hold)
+# filter entries of the inline image for which the data still ends at EI (ASCII85 is not the first filter)
+INLINE_FILTERS = [b"", b"/F /AHx ", b"/F [/AHx /A85] ", b"/F [/Fl /AHx] ", b"/F [/LZW /A85 /AHx] "]
 INLINE_PRE = [([], 0), ([b"q "], 1), ([b"0 " * 40], 40), ([b"q", b" Q "], 2), ([b"", b"1 2 3 "], 3)]
 
 
@@ -286,7 +288,8 @@ def h4_inline(n=2, timeout=150, part=None, **kw):
         eol = [b"\n", b"\r\n"][ex.choice(2, "eol")]
         if eol == b"\r\n" and n:
             pass
-        content = SBy(list(b"BI /W 1 /H 1 /BPC 8 /CS /G ID ")) + data + eol + b"EI\n 7 Tc (x) Tj"
+        filt = INLINE_FILTERS[ex.choice(len(INLINE_FILTERS), "filter")]
+        content = SBy(list(b"BI /W 1 /H 1 /BPC 8 /CS /G " + filt + b"ID ")) + data + eol + b"EI\n 7 Tc (x) Tj"
         pre_i = ex.choice(len(INLINE_PRE), "pre")
         pre, npre = INLINE_PRE[pre_i]
         info = {"content": content, "data": data, "pre": pre_i}
@@ -313,7 +316,7 @@ def h4_inline(n=2, timeout=150, part=None, **kw):
     def conc(m, info):
         return {"content": sbytes.model_bytes(m, info["content"]), "data": sbytes.model_bytes(m, info["data"]), "pre": info["pre"]}
     return core.run_symx("H4_inline", fn, [pi.PDFContentParser.get_inline_data, pi.PDFContentParser.do_keyword],
-                         {"data_bytes": n, "byte_values": "0..255 minus the end marker", "eol_before_EI": "LF / CRLF", "earlier content streams": [x for x, _ in INLINE_PRE]}, timeout, concretize=conc, shims=shims, part=part,
+                         {"data_bytes": n, "byte_values": "0..255 minus the end marker", "eol_before_EI": "LF / CRLF", "earlier content streams": [x for x, _ in INLINE_PRE], "filter entry": INLINE_FILTERS}, timeout, concretize=conc, shims=shims, part=part,
                          int_lo=-16, int_hi=1023)
 
 
